@@ -284,7 +284,7 @@ def execute(scn):
         b = cv.get(k)
         if a != b:
             o = conc.outcomes.get(k) or seq.outcomes.get(k)
-            who = o["actor"] if k in conc.outcomes else "?"
+            who = o["actor"] if k in conc.outcomes else k.split("|")[0].split("#")[0].split(".")[0]  # (ticket ids start with the actor's name)
             ukind = "method" if o.get("obj") else "func"
             cls = "%s:%s:%s:%s:%s->%s" % (
                 engine,
